@@ -8,7 +8,7 @@ use anda_cognitive_nexus::{
     governance::{
         AuthContext, Permission, ResourceContext, SYSTEM_PRINCIPAL,
         rows::*,
-        store::{ActorBindingDraft, DelegationDraft, GrantDraft, GroupDraft, PolicyDraft},
+        store::{ActorBindingDraft, ApprovalDraft, DelegationDraft, GrantDraft, GroupDraft, PolicyDraft},
     },
     nexus::Session,
 };
@@ -24,6 +24,7 @@ pub struct Snapshot {
     pub space: String,
     pub blocks: BTreeMap<String, String>,
     pub decisions: Vec<String>,
+    pub approvals: Vec<Value>,
 }
 
 pub async fn governance_blocks(nexus: &CognitiveNexus) -> BTreeMap<String, String> {
@@ -72,7 +73,9 @@ pub async fn snapshot(nexus: &CognitiveNexus) -> Snapshot {
             }
         }
     }
-    Snapshot { gov, space, blocks: governance_blocks(nexus).await, decisions }
+    let approvals: Vec<ApprovalRow> = typed_rows(nexus, "gov_approvals").await;
+    let approvals = approvals.iter().map(|a| serde_json::to_value(a).unwrap()).collect();
+    Snapshot { gov, space, blocks: governance_blocks(nexus).await, decisions, approvals }
 }
 
 /// What changed that must not have: returns (class, detail) pairs.
@@ -86,6 +89,17 @@ pub fn compare(before: &Snapshot, after: &Snapshot) -> Vec<(String, String)> {
             if a.len() < b.len() || a[..b.len()] != b[..] {
                 let k = b.iter().zip(a.iter()).position(|(x, y)| x != y).unwrap_or(a.len().min(b.len()));
                 out.push(("audit-record-changed".into(), format!("gov_audit row #{k}: before {:?} after {:?}", b.get(k), a.get(k))));
+            }
+        } else if name == "gov_approvals" && a != b {
+            // the one change a command may cause: spending a granted approval it ran under
+            let spent_only = before.approvals.len() == after.approvals.len()
+                && before.approvals.iter().zip(after.approvals.iter()).all(|(x, y)| {
+                    if x == y { return true; }
+                    let strip = |v: &Value| { let mut m = v.as_object().cloned().unwrap_or_default(); m.remove("status"); m.remove("updated_at"); m.remove("version"); m };
+                    x["status"] == "granted" && y["status"] == "consumed" && strip(x) == strip(y)
+                });
+            if !spent_only {
+                out.push(("control-plane-changed".into(), format!("gov_approvals: before {:?} after {:?}", before.approvals, after.approvals)));
             }
         } else if a != b {
             let k = b.iter().zip(a.iter()).position(|(x, y)| x != y).unwrap_or(a.len().min(b.len()));
@@ -298,6 +312,50 @@ pub async fn main(args: &[String]) {
                 }
                 keys.push(format!("{p}|AST {to}|{text}|{outcome}"));
                 before = after;
+            }
+        }
+        // approvals: a policy makes `export` wait for two independent approvals; the command that
+        // runs under them spends them (granted -> consumed) and changes nothing else
+        {
+            let gov = nexus.governance();
+            gov.publish_policy(PolicyDraft { policy_id: "kip:policy:space".into(), space_id: SPACE.into(), description: "approvals".into(), statements: vec![
+                PolicyStatement { effect: "allow".into(), principals: vec!["kip:principal:anonymous".into()], actions: vec!["discover".into()], ..Default::default() },
+                PolicyStatement { effect: "allow".into(), principals: vec!["kip:principal:writer".into()], actions: vec!["export".into()],
+                                  constraints: AuthorityConstraints { export: true, ..Default::default() },
+                                  obligations: PolicyObligations { approvals_required: 2, ..Default::default() }, ..Default::default() },
+            ] }, SYSTEM_PRINCIPAL).await.unwrap();
+            let mut space = nexus.store.get_space(SPACE).await.unwrap();
+            space.default_policy_id = "kip:policy:space".into();
+            nexus.store.put_space(&space).await.unwrap();
+            let writer = nexus.session(AuthContext::principal("kip:principal:writer"));
+            let export = r#"EXPORT CAPSULE ?c WHERE { ?c CONCEPT {} }"#;
+            let mut outcomes: Vec<String> = Vec::new();
+            for phase in 0..3 {
+                if phase == 1 {
+                    let digest = anda_cognitive_nexus::governance::approval::subject_digest(SPACE, Permission::Export, &ResourceContext::default());
+                    let row = gov.request_approval(ApprovalDraft { space_id: SPACE.into(), operation: "export".into(), resource: String::new(), subject_digest: digest,
+                        required: 2, allow_self_approval: false, expires_at: String::new() }, "kip:principal:writer").await.unwrap();
+                    gov.approve(row._id, "kip:principal:reader", "ok").await.unwrap();
+                    gov.approve(row._id, "kip:principal:helper", "ok").await.unwrap();
+                }
+                let before = snapshot(&nexus).await;
+                let outcome = match run_as(&writer, export).await { Ok(r) => { let c = error_code(&r); if c.is_empty() { "ok".to_string() } else { c } } Err(_) => "ParseError".into() };
+                evaluations += 1;
+                *dist.entry(format!("approval-phase{phase}:{outcome}")).or_default() += 1;
+                let after = snapshot(&nexus).await;
+                for (cls, detail) in compare(&before, &after) {
+                    failures.push(json!({"what": cls, "detail": detail, "principal": "kip:principal:writer", "command": export, "outcome": outcome, "round": round, "approval_phase": phase}));
+                }
+                keys.push(format!("approval|{phase}|{outcome}"));
+                outcomes.push(outcome);
+                if phase == 1 {
+                    let spent = after.approvals.iter().filter(|a| a["status"] == "consumed").count();
+                    *dist.entry(format!("approvals-consumed:{spent}")).or_default() += 1;
+                }
+            }
+            // one pair of approvals buys one export: refused before, allowed once, refused again
+            if !(outcomes[0] != "ok" && outcomes[1] == "ok" && outcomes[2] != "ok") {
+                failures.push(json!({"what": "approval-not-required-or-not-spent", "detail": format!("export outcomes without / with / after approvals: {outcomes:?}"), "command": export, "round": round}));
             }
         }
         // the comparison is live: a control-plane call does change the dump
